@@ -162,6 +162,16 @@ def build():
         return VBool(z3.And(ok, I.heap.data[k].term == z3.Concat(oldc.term, z3.Unit(V.obj_term(o)))))
     C.helpers["appended"] = appended
 
+    def key_names_registered(I, result):
+        """the callback in the returned key IS the callback of the entry just registered (the partial wrapper when
+        switch info / kwargs are bound)"""
+        new = [o for (o, f) in I.heap.data.keys() if isinstance(o, Obj) and o.cls == "RegisteredSwitch"
+               and getattr(o, "fresh", False) and f == "callback"]
+        if len(new) != 1:
+            return VBool(False)
+        return VBool(I.eq(I.force(result).items[1], I.heap.data[(new[0], "callback")]))
+    C.helpers["key_names_registered"] = key_names_registered
+
     DEADLINE = "switch.last_change + ms / 1000.0"
     C.fn("SwitchController.add_switch_handler_obj",
          params=dict(switch=SWITCH, callback=Fn, state=Int, ms=Num, return_info=Bool, callback_kwargs=Union(NoneT, KW)),
@@ -169,6 +179,10 @@ def build():
          ensures=[
              ("the handler is registered for (switch, state)", "appended(ms)"),
              ("returns the removal key", "result.switch_name == switch and result.state == state and result.ms == ms"),
+             ("AK1: the key names the callback AS REGISTERED (the wrapper, when switch info or kwargs are bound to it): "
+              "removal by key then removes this one handler - a key carrying the bare callback would match every handler "
+              "built around it (e.g. the power-supply notifications of all hardware rules on one switch)",
+              "key_names_registered(result)"),
              ("a timed handler added mid-interval is armed for the ORIGINAL deadline iff that is still ahead and "
               "the switch is in that state; not at all otherwise",
               "n_ev('add_timed') == (1 if (ms != 0 and state == switch.state and %s > now()) else 0)" % DEADLINE),
